@@ -114,6 +114,9 @@ class Report:
             )
         rdir = REPLAY_DIR if not os.environ.get("VELACHECK_NO_EVIDENCE") else os.path.join(REPLAY_DIR, "scratch")
         os.makedirs(rdir, exist_ok=True)
+        for old in os.listdir(rdir):
+            if old.startswith(self.prop + "-") and old.endswith(".json"):
+                os.remove(os.path.join(rdir, old))
         for n, i in enumerate(violations):
             path = os.path.join(rdir, f"{self.prop}-{n}.json")
             with open(path, "w") as f:
